@@ -17,11 +17,13 @@ macro_rules! scen {
 pub mod c01;
 pub mod c04;
 pub mod c06;
+pub mod c08;
 
 pub fn all() -> Vec<Scenario> {
     let mut v = vec![];
     c01::register(&mut v);
     c04::register(&mut v);
     c06::register(&mut v);
+    c08::register(&mut v);
     v
 }
